@@ -1,8 +1,17 @@
 (** Correspondence record for C09: one case = a task signature with its
-    decorator options, and what Task.get_arguments + ParserContext produced. *)
+    decorator options (help= included), the Python kinds of its parameters,
+    and what Task.get_arguments + ParserContext produced, which help text
+    every Argument carries, and whether calling the task with the produced
+    keyword arguments handed every parameter its value. *)
 From InvokeVerif Require Export Model.SigCtxModel Spec.C09Spec.
 
-Record case := mk { c_sig : tsig; c_obs : result cli }.
+Record case := mk {
+  c_sig : tsig;
+  c_obs : result cli;
+  c_help : list (string * string);            (* the help= dict, in insertion order *)
+  c_help_obs : list (string * option string); (* (python name, Argument.help) in get_arguments order *)
+  c_kinds : list pkind;                       (* parameter kinds, in signature order; [] = all plain *)
+  c_calls : bool }.
 
 Definition res_eqb (a b : result cli) : bool :=
   match a, b with
@@ -11,6 +20,36 @@ Definition res_eqb (a b : result cli) : bool :=
   | _, _ => false
   end.
 
-Definition corr (c : case) : bool := res_eqb (sig_cli (c_sig c)) (c_obs c).
+Definition with_binds (b : bool) (o : cli) : cli :=
+  mkCli (o_args o) (o_flags o) (o_flag_aliases o) (o_inverse o) (o_positional o) (o_kwargs o) b
+        (o_kind_names o) (o_takes o).
 
-Definition spec (c : case) : bool := spec_ok (c_sig c) (c_obs c).
+Definition ho_eqb (a b : string * option string) : bool :=
+  String.eqb (fst a) (fst b) && opt_eqb String.eqb (snd a) (snd b).
+
+(** the model's whole answer for the case *)
+Definition model_cli (c : case) : result cli :=
+  match get_help (c_sig c) (c_help c) with
+  | Err e => Err e                      (* ValueError before any context is built *)
+  | Ok _ =>
+      match sig_cli (c_sig c) with
+      | Ok o =>
+          Ok (match c_kinds c with
+              | [] => o
+              | ks => with_binds (bind_kinds (s_params (c_sig c)) ks (o_kwargs o)) o
+              end)
+      | Err e => Err e
+      end
+  end.
+
+Definition corr (c : case) : bool :=
+  res_eqb (model_cli c) (c_obs c) &&
+  match model_cli c, get_help (c_sig c) (c_help c) with
+  | Ok o, Ok hs =>
+      list_eqb ho_eqb hs (c_help_obs c) &&
+      Bool.eqb (c_calls c) (o_binds o && call_ok (c_kinds c) (o_kwargs o))
+  | _, _ => true
+  end.
+
+Definition spec (c : case) : bool :=
+  spec_task (c_sig c) (c_help c) (c_obs c) (c_help_obs c) (c_calls c).
